@@ -46,7 +46,7 @@ FAMILIES = [
 # bounded cache) and nested brackets with three forms sharing a prefix (a failed alternative must be memoized too)
 EXTRA = [
     (FAMILIES[1][0], lambda n: [49] + [43, 49] * (n // 2), 20),
-    ([('memo', 1, ('choice', [('ref', 1), ('ref', 2), ('ref', 3), rn(97)])),
+    ([('choice', [('ref', 1), ('ref', 2), ('ref', 3), rn(97)]),      # the dispatching Choice is NOT memoized
       ('memo', 2, sq(rn(40), ('ref', 0), rn(44), ('ref', 0), rn(44), ('ref', 0), rn(41))),
       ('memo', 3, sq(rn(40), ('ref', 0), rn(44), ('ref', 0), rn(41))),
       ('memo', 4, sq(rn(40), ('ref', 0), rn(41)))],
